@@ -201,3 +201,43 @@ func VC18IO() {
 	vAssert("in-warns", vWarnCount() == 2)
 	vAssert("in-returns-0", r == 0)
 }
+
+// a sequence of calls: function 2, then function 9 with a one-character string
+// (mixed sequences in general: by composition, each call returns with the
+// caller's state intact)
+func VC18Seq() {
+	m, io, cons := vMachine()
+	var s z80.States
+	vHavoc(&s, "s")
+	pc := s.PC
+	vAssume(vAnd(pc >= 0x0100, pc < 0xfe00-8))
+	prog := [8]uint8{0xcd, 0x05, 0x00, 0x0e, 0x09, 0xcd, 0x05, 0x00} // CALL 5 ; LD C,9 ; CALL 5
+	for i := 0; i < 8; i++ {
+		m.buf[pc+uint16(i)] = prog[i]
+	}
+	s.BC.Lo = 2
+	s1, s2 := s.SP-1, s.SP-2
+	vAssume(vAnd(vOutsideBIOS(s1), vOutsideBIOS(s2)))
+	vAssume(vAnd(vOr(s1 < pc, s1 > pc+7), vOr(s2 < pc, s2 > pc+7)))
+	de := uint16(s.DE.Hi)<<8 | uint16(s.DE.Lo)
+	ch := vU8("ch")
+	vAssume(ch != '$')
+	for i := 0; i < 2; i++ {
+		a := de + uint16(i)
+		vAssume(vOutsideBIOS(a))
+		vAssume(vOr(a < pc, a > pc+7))
+		vAssume(vAnd(a != s1, a != s2))
+	}
+	m.buf[de] = ch
+	m.buf[de+1] = '$'
+	cpu := &z80.CPU{States: s, Memory: m, IO: io}
+	for i := 0; i < 8+1+16; i++ { // fn 2 (8 Steps), LD C,9, fn 9 with one character (10+6)
+		cpu.Step()
+	}
+	vAssert("two-bytes", cons.n == 2)
+	vAssert("first-is-E", cons.buf[0] == s.DE.Lo)
+	vAssert("then-the-string", cons.buf[1] == ch)
+	vAssert("returns-after-second-call", cpu.PC == pc+8)
+	vAssert("sp-restored", cpu.SP == s.SP)
+	vAssert("no-warning", vWarnCount() == 0)
+}
